@@ -47,7 +47,7 @@ theorem cbcHmacOpen_seal (P : Prims) (p : AeadParams) (key iv pt ad : Bytes)
   unfold cbcHmacOpen
   have e : (ct ++ cbcHmacTag P p key ad iv ct).length - p.tagSize = ct.length := by
     simp [htl]
-  rw [if_neg (by simp [htl]), e, List.drop_left' rfl, List.take_left' rfl]
+  rw [if_neg (by omega), if_neg (by simp [htl]), e, List.drop_left' rfl, List.take_left' rfl]
   simp only [ne_eq, not_true_eq_false, if_false]
   rw [if_neg (by rw [hct]; omega)]
   simp only [cbcDecrypt]
